@@ -2,6 +2,7 @@ package k
 
 import (
 	"fmt"
+	"math"
 	"math/rand"
 	"sort"
 	"strings"
@@ -43,6 +44,12 @@ type Profile struct {
 	PJump      float64 // tick jumps far
 	HostileIds bool
 	Crons      []string
+	// PFront: probability that a request goes through a front end (http or grpc, evenly)
+	PFront float64
+	// PHostile: probability that a request is a hostile one (malformed, out of range, forged cursor ...)
+	PHostile float64
+	// HostileData: ids, tags and timeouts are drawn from the hostile-but-legal pools
+	HostileData bool
 	// Prologue: "" or "tasks" (routed promises, registrations and a few settled
 	// rounds first, so that tasks exist and get dispatched)
 	Prologue string
@@ -414,6 +421,45 @@ func (g *Gen) faultIdx(n int, p float64) []int {
 	return out
 }
 
+// decorate sends a request through a front end and/or gives it hostile data.
+func (g *Gen) decorate(sp *ReqSpec) {
+	r := g.R
+	if g.P.HostileData {
+		switch sp.Kind {
+		case "CreatePromise", "CreatePromiseAndTask":
+			if r.Intn(4) == 0 {
+				v := pick(r, []int64{math.MaxInt64, math.MinInt64, 0, -1, math.MaxInt64 - 1, 1 << 53, 1<<53 + 1})
+				sp.TimeoutAbs = &v
+			}
+			if r.Intn(3) == 0 {
+				if sp.Tags == nil {
+					sp.Tags = map[string]string{}
+				}
+				sp.Tags[pick(r, []string{"a.b", "k k", "ä", "", "x\"y", "resonate:x"})] = pick(r, hostileStrings[:20])
+			}
+			if r.Intn(3) == 0 {
+				d := pick(r, []string{"", " ", "\x00\x01", "ä€", "{\"j\":1}", "line\nbreak", strings.Repeat("z", 3000)})
+				sp.Data = &d
+			}
+			if r.Intn(4) == 0 {
+				sp.Headers = map[string]string{pick(r, []string{"", "H", "h", "a b", "ä"}): pick(r, []string{"", " v ", "ä"})}
+			}
+		case "CompletePromise":
+			if r.Intn(3) == 0 {
+				d := pick(r, []string{"", " ", "\x00\x01", "ä€", "null", strings.Repeat("z", 3000)})
+				sp.Data = &d
+			}
+		case "CreateSchedule":
+			if r.Intn(3) == 0 {
+				sp.PromiseTimeout = pick(r, []int64{0, -1, 1 << 40, math.MaxInt64 / 4})
+			}
+		}
+	}
+	if r.Float64() < g.P.PFront {
+		sp.Proto = pick(r, []string{"http", "grpc"})
+	}
+}
+
 // Prologue returns the fixed opening steps of a run.
 func (g *Gen) Prologue() []Step {
 	if g.P.Prologue != "tasks" {
@@ -476,12 +522,17 @@ func (g *Gen) Next() Step {
 		cs = append(cs, cand{w, func() Step {
 			g.nReq++
 			var sp *ReqSpec
+			if r.Float64() < g.P.PHostile {
+				s.Probes["hostile_request"]++
+				return Step{Op: "req", Client: r.Intn(3), Req: g.hostileReq()}
+			}
 			if len(g.recent) > 0 && r.Float64() < g.P.PDup {
 				c := *pick(r, g.recent)
 				sp = &c
 				s.Probes["client_duplicate_or_retry"]++
 			} else {
 				sp = g.reqSpec()
+				g.decorate(sp)
 			}
 			g.recent = append(g.recent, sp)
 			if len(g.recent) > 6 {
@@ -505,6 +556,7 @@ func (g *Gen) Next() Step {
 					}
 				}
 				g.nReq++
+				g.decorate(sp)
 				g.queue = append(g.queue, Step{Op: "req", Client: r.Intn(3), Req: sp})
 			}
 			g.P.HotP = saved
